@@ -226,6 +226,14 @@ def run(ctx):
             ctx.known("id=%s site=%s class=%s witness=%s still fails" % (kf["id"], kf.get("site"), kf.get("class"), kf["witness"]))
         else:
             ctx.notes.append("finding %s no longer reproduces" % kf["id"])
+    # runtime part: same UUID on every call, in every goroutine (sequential answers vs 64 goroutines at once)
+    conc = vc.hrows(["-mode", "uuidconc", "-seed", str(ctx.seed), "-n", "400" if thorough else "40"])
+    for r in conc:
+        if r["wrong"] > 0:
+            ctx.violation({"kind": "property-violated-by-implementation", "class": "uuid-differs-under-concurrency",
+                           "explain": "UUID() re-computed from %d goroutines at once differs from the sequentially computed UUID of the same value" % r["goroutines"],
+                           "failing_input": {"calls": r["calls"], "wrong": r["wrong"], "examples": r["examples"]}})
+    ctx.cov["concurrent_uuid"] = [{k: v for k, v in r.items() if k != "examples"} for r in conc]
     ctx.cov["evaluations"] = len(vals)
     nt = set()
     for (kd, j), p in zip(vals, pres):
@@ -242,7 +250,8 @@ def run(ctx):
     ctx.cov["property_failures_unexplained"] = len(unexplained)
     ctx.cov["samples"] = [rows[0], rows[30], rows[-1]]
     ctx.assumptions += ["SHA-1 collision resistance: UUID equality is predicted by pre-image equality",
-                        "determinism is sampled: every UUID() is called twice (with unrelated calls in between, pooled buffers) and once from another goroutine"]
+                        "determinism is sampled: every UUID() is called twice (with unrelated calls in between, pooled buffers) and once from another goroutine; "
+                        "plus a concurrent run (64 goroutines, ~70000 calls over values with 4 KiB..1 MiB text/blob literals) compared with sequential answers - a runtime observation, not a theorem"]
 
 
 def search(ctx, broken):
